@@ -119,6 +119,15 @@ func runC31(c *core.Ctx) error {
 		if err != nil {
 			b.Close()
 			if ci == 0 {
+				// the probe schema is the harness's own and its C++ compiles on the unchanged tree: a compiler
+				// diagnostic inside the generated files (reproduced by a second generation + build) means the
+				// C++ back end emits code that cannot serve the schema at all
+				if strings.Contains(err.Error(), "does not compile") && strings.Contains(err.Error(), ": error: ") {
+					if _, err2 := buildCpp(c, cp, 100); err2 != nil && strings.Contains(err2.Error(), ": error: ") {
+						c.Violate("cpp-build/"+cp.Name+"/generated-code-does-not-compile", "tlgen accepted the schema but the generated C++ does not compile: "+tail(err2.Error(), 1200), map[string]any{"corpus": cp})
+						continue
+					}
+				}
 				return err
 			}
 			// the property is about schemas whose C++ compiles; a schema the C++ back end cannot
